@@ -964,6 +964,7 @@ func gen(c *explore.C, p profile) Case {
 		}
 		cs.Render.StyleForm = c.Choose("styleform", 2)
 		cs.Render.RunBlank = c.Bool("runblank")
+		cs.Render.RowFill = explore.Pick(c, "rowfill", 0, 2)
 	case 2:
 		if isTeletext(g.DSC) {
 			cs.Render.Box = c.Choose("box", 6)
@@ -973,6 +974,7 @@ func gen(c *explore.C, p profile) Case {
 		cs.Render.RunBlank = c.Bool("runblank")
 		cs.Render.TrailingBreak = c.Bool("trailingbreak")
 		cs.Render.Indent = explore.Pick(c, "indent", 0, 1, 3)
+		cs.Render.RowFill = explore.Pick(c, "rowfill", 0, 1, 3)
 	}
 	if p.wopts == 1 {
 		cs.W.Meta = c.Choose("w.meta", 5)
